@@ -13,7 +13,8 @@ RULE = ("cases are (rule, attribute assignment) pairs: the full product over the
         "{absent, each listed value, one unlisted value, three near-misses of a listed value (prefix, upper case, '')} times {no foreign attribute, one foreign attribute}; "
         "thorough adds exotic values and every insertion order of the attributes (<=4 declared) or a sample of orders. "
         "Each case runs single-node validation in both modes on a node with valid content and a valid child "
-        "sequence. distinct = distinct (rule, ordered assignment); non-trivial = all (each decides one verdict)")
+        "sequence. distinct = distinct (rule, ordered assignment); non-trivial = all (each decides one verdict)"
+        ". Also: long-lived nodes whose attributes are replaced in place, listed values padded with white space, non-text values, foreign attributes entered first / twice / with a colon, the loaded rule unchanged by the introspection queries")
 ASSUMPTIONS = [
     "an attribute whose table entry lists no values accepts any value",
     "collecting mode: exactly one (code, attribute) entry per violated constraint, codes ATTRIBUTE_REQUIRED / "
